@@ -81,6 +81,24 @@ impl XsdDateTime {
     }
 }
 
+impl XsdDateTime {
+    /// Compare the positions of two dateTimes on the UTC timeline,
+    /// considering that those without a timezone are in UTC.
+    ///
+    /// Unlike [`PartialOrd`], this is a total preorder;
+    /// it is consistent with it:
+    /// `x < y` implies `x.timeline_cmp(y) == Less`.
+    pub fn timeline_cmp(&self, other: &Self) -> Ordering {
+        fn position(d: &XsdDateTime) -> NaiveDateTime {
+            match d {
+                XsdDateTime::Naive(d) => *d,
+                XsdDateTime::Timezoned(d) => d.naive_utc(),
+            }
+        }
+        position(self).cmp(&position(other))
+    }
+}
+
 impl FromStr for XsdDateTime {
     type Err = &'static str;
 
